@@ -135,7 +135,7 @@ fn mutate(r: &mut Rng, doc: &mut Document, c: &mut Ctx) {
     for _ in 0..n_mut {
         let target = *r.pick(&ids);
         let other = *r.pick(&ids);
-        let kind = r.below(12);
+        let kind = r.below(13);
         let Some(obj) = doc.objects.get_mut(&target) else { continue };
         match kind {
             0 => { // kid cycle: append a reference to some other node (possibly an ancestor) to Kids
@@ -153,6 +153,8 @@ fn mutate(r: &mut Rng, doc: &mut Document, c: &mut Ctx) {
                    *obj = Object::Reference(other); c.count("mut.ref_chain"); }
             9 => { if let Object::Dictionary(d) = obj { d.set("Type", Object::Integer(1)); d.set("Linearized", Object::Integer(1)); c.count("mut.linearized_fallback"); } }
             10 => { if let Object::Dictionary(d) = obj { d.set("Kids", Object::Reference(other)); c.count("mut.kids_ref_other"); } }
+            11 => { // a STREAM whose dictionary looks like a page-tree node or a page: not a dictionary object, never a page
+                    if let Object::Dictionary(d) = obj { let d = d.clone(); *obj = Object::Stream(lopdf::Stream::new(d, b"q Q".to_vec())); c.count("mut.stream_node"); } }
             _ => { if let Object::Dictionary(d) = obj { if d.has(b"Kids") { d.set("Type", Object::Name(b"Page".to_vec())); } else { d.set("Type", Object::Name(b"Pages".to_vec())); } c.count("mut.swap_type"); } }
         }
     }
@@ -202,7 +204,7 @@ fn run_real(doc: &Document) -> Result<(Vec<ObjectId>, bool), (String, String)> {
 pub fn run(c: &mut Ctx) {
     c.rule = "random abstract page trees (depth<=8 mostly, fan-out<=8, empty intermediates, Kids direct or by reference, \
 shuffled sparse ids) built into real Documents; deep path-like trees around the 256 limit; malformed variants by 1-4 mutations \
-(kid cycles, ill-typed/dangling/non-reference kids, missing Type, wrong Count, reference chains, Linearized fallback). \
+(kid cycles, ill-typed/dangling/non-reference kids, stream objects posing as nodes or pages, missing Type, wrong Count, reference chains, Linearized fallback); shallow trees with 200-400 single-kid intermediate chains. \
 Non-trivial = at least 2 leaves or a malformed mutation applied; distinct by request text.".into();
     // ---- well-formed trees
     let n_valid = c.n(400, 6000);
@@ -223,6 +225,13 @@ Non-trivial = at least 2 leaves or a malformed mutation applied; distinct by req
         let Some(mut r) = c.case("comb", i as u64) else { continue };
         let t = gen_comb(&mut r, *d);
         check_valid(c, &mut r, &t, "comb");
+    }
+    // ---- shallow but wide: many last-or-only intermediate nodes (more than the depth limit in total) at small depth
+    for i in 0..c.n(6, 40) {
+        let Some(mut r) = c.case("wide", i) else { continue };
+        let width = 200 + r.usize(200); let chain = 1 + r.usize(3);
+        let kids: Vec<T> = (0..width).map(|_| { let mut t = if r.chance(1, 5) { T::Pages(vec![T::Page, T::Page]) } else { T::Page }; for _ in 0..chain { t = T::Pages(vec![t]); } t }).collect();
+        check_valid(c, &mut r, &T::Pages(kids), "wide");
     }
     // beyond the limit: only termination / only-pages / correspondence
     for (i, d) in [256usize, 257, 258, 300, 400].iter().enumerate() {
